@@ -31,7 +31,7 @@ theorem invH_step (C : List Feature) (O : Oracle) (st0 : St) (c : Conf) (h : Inv
 
 structure InvS (script : List Peer) (c : Conf) : Prop where
   sub : ∀ p ∈ c.script, p ∈ script
-  crash : c.pc = .crash → Peer.serr ∈ script
+  crash : c.pc ≠ .crash
 
 theorem invS_step (C : List Feature) (O : Oracle) (script : List Peer) (c : Conf)
     (h : InvS script c) : InvS script (step C O c) := by
@@ -42,6 +42,7 @@ theorem invS_step (C : List Feature) (O : Oracle) (script : List Peer) (c : Conf
     | exact h1
     | exact h2
     | (intro h; cases h; done)
+    | (intro h; exact h2 (by simp_all))
     | (intro p hp; exact h1 p (by simp_all))
     | (intro _; exact h1 _ (by simp_all))
     | skip
